@@ -78,4 +78,55 @@ theorem setElevation_lower_one (fs : Bool) (fuel : Nat) (m m' : Map) (e : Int) (
     · exact ⟨r, hr', pyFirst_mem _ _ ha⟩
     · exact ⟨r, hr', pyLast_mem _ _ hbb⟩
 
+/-- **lowering by one level**: on a map whose elevations outside the rectangle all lie in `[e, e + 1]` (inside: anything), `set_elevation(e, rectangle)`
+(more than one tile) returns the map with exactly the rectangle's tiles set to `e` - nothing around it moves -/
+theorem setElevation_lower_one_gen (fs : Bool) (fuel : Nat) (m m' : Map) (e : Int) (x1 y1 x2 y2 : Nat) (hwf : WF m)
+    (hx : x1 ≤ x2) (hx2 : x2 < m.size) (hy : y1 ≤ y2) (hy2 : y2 < m.size) (hns : ¬ (x1 = x2 ∧ y1 = y2))
+    (hm : ∀ (k : Nat) (t : Tile), m.tiles[k]? = some t → k ∉ (rectRows m.size x1 y1 x2 y2).flatten →
+      e ≤ t.elevation ∧ t.elevation ≤ e + 1)
+    (h : setElevation fs fuel m e x1 y1 (some (x2 : Int)) (some (y2 : Int)) = .ok m') :
+    m' = (rectRows m.size x1 y1 x2 y2).flatten.foldl (fun m k => setElevAt m k e) m := by
+  have hc : ¬ ((x1 : Int) = (x2 : Int) ∧ (y1 : Int) = (y2 : Int)) := by omega
+  unfold setElevation at h
+  simp only [Option.getD_some, if_neg hc, squareRowsPos_spec m hwf x1 y1 x2 y2 hx hx2 hy hy2] at h
+  obtain ⟨rows, hrows, h⟩ := bind_ok _ _ _ h
+  injection hrows with hps
+  subst hps
+  generalize hm1 : (rectRows m.size x1 y1 x2 y2).flatten.foldl (fun m k => setElevAt m k e) m = m1 at h
+  have b1 : Bnd e (e + 1) m1 := by
+    intro k t ht
+    rw [← hm1, fill_spec] at ht
+    split at ht
+    · cases hmk : m.tiles[k]? with
+      | none => simp [hmk] at ht
+      | some t0 => simp [hmk] at ht; subst ht; simp [Tile.withElev]; omega
+    · next hk => exact hm k t ht hk
+  obtain ⟨xys, _, h⟩ := bind_ok _ _ _ h
+  obtain ⟨first, hfirst, h⟩ := bind_ok _ _ _ h
+  obtain ⟨last, hlast, h⟩ := bind_ok _ _ _ h
+  obtain ⟨mids, hmids, h⟩ := bind_ok _ _ _ h
+  have hrect : ∀ k ∈ (rectRows m.size x1 y1 x2 y2).flatten, ∀ st, m1.tiles[k]? = some st → st.elevation = e := by
+    intro k hk st hst
+    rw [← hm1, fill_spec, if_pos hk] at hst
+    cases hmk : m.tiles[k]? with
+    | none => simp [hmk] at hst
+    | some t0 => simp [hmk] at hst; subst hst; rfl
+  refine edge_fold_noop e (e + 1) (by omega) fuel xys m1 m' b1 _ ?_ h
+  intro k hk
+  apply hrect k
+  simp only [List.mem_append, List.mem_flatten] at hk ⊢
+  rcases hk with (hk | hk) | ⟨pr, hpr, hk⟩
+  · exact ⟨first, pyFirst_mem _ _ hfirst, hk⟩
+  · exact ⟨last, pyLast_mem _ _ hlast, hk⟩
+  · obtain ⟨r, hr, hf⟩ := mapM_ok_mem' _ _ _ hmids pr hpr
+    have hr' : r ∈ rectRows m.size x1 y1 x2 y2 := List.mem_of_mem_drop (List.dropLast_subset _ hr)
+    obtain ⟨a, ha, hf⟩ := bind_ok _ _ _ hf
+    obtain ⟨b, hbb, hf⟩ := bind_ok _ _ _ hf
+    simp only [pure, Except.pure] at hf
+    injection hf with hf; subst hf
+    simp only [List.mem_cons, List.mem_nil_iff, or_false] at hk
+    rcases hk with rfl | rfl
+    · exact ⟨r, hr', pyFirst_mem _ _ ha⟩
+    · exact ⟨r, hr', pyLast_mem _ _ hbb⟩
+
 end Aoe.Map
